@@ -1,4 +1,4 @@
 SPECIFICATION Spec
-INVARIANT AtomicIntended ExactAll Terminates
+INVARIANT AtomicIntended ExactIntended HonestIntended Terminates NoTempAfterSuccess
 CONSTRAINT Emit
 CHECK_DEADLOCK FALSE
